@@ -270,6 +270,8 @@ pub enum Seal {
     NoEnd,
     /// nothing appended
     None,
+    /// one-byte CRC field holding only the low (0) or high (1) byte of a CRC that needs two
+    TruncCrc(u8),
 }
 
 #[derive(Clone, PartialEq, Eq, Debug, Serialize, Deserialize, Hash)]
@@ -395,6 +397,11 @@ pub fn seal_msg(m: &MsgScn) -> Vec<u8> {
         }
         Seal::NoEnd => put(&mut v, crc, false),
         Seal::None => {}
+        Seal::TruncCrc(which) => {
+            v.push(0x62);
+            v.push(if which % 2 == 0 { (crc & 0xff) as u8 } else { (crc >> 8) as u8 });
+            v.push(0);
+        }
     }
     v
 }
